@@ -143,7 +143,7 @@ class SimLoop(asyncio.SelectorEventLoop):
         self.tasks = []           # weak-ish registry (tasks kept until pruned)
         self.timers = []
         self.transports = []
-        self.set_task_factory(self._task_factory)
+        self.set_task_factory(self._vf_task_factory)   # NB: BaseEventLoop has an INSTANCE attribute _task_factory
         if max_virtual_s is not None:
             self._vsel.max_time = self.clock.now + max_virtual_s
         self.slow_callback_duration = 1e9
@@ -209,7 +209,7 @@ class SimLoop(asyncio.SelectorEventLoop):
         self._event_actions.setdefault(k, []).append(fn)
 
     # ---- ownership tagging -------------------------------------------------------------
-    def _task_factory(self, loop, coro, **kw):
+    def _vf_task_factory(self, loop, coro, **kw):
         t = asyncio.Task(coro, loop=loop, **kw)
         t._vf_owner = OWNER.get()
         self.tasks.append(t)
